@@ -5,7 +5,7 @@ from vf.env import pick, verdict, observe, safe, build, DictCache
 from vf.ob import obligation, shard
 
 META = {
-    "bounds": "6 mutation documents (2-4 root fields, aliases, fragments at the root, nested selections with a list), <= 4 gated nested resolvers per document "
+    "bounds": "7 mutation documents (2-4 root fields, aliases, fragments at the root, nested selections with a list), <= 4 gated nested resolvers per document "
               "(every completion order), failure placement over {none, each gated nested field, a nullable root, a non-null root, argument coercion of a nullable root, a non-null root whose custom scalar answers null during completion, a nullable root raising a duck-typed coercible exception}; concurrent and sequential engine configurations, mutation root type named Mutation / custom name / added by `extend schema`",
     "outside": "more than 4 simultaneously pending nested resolvers; subscription/query operations (C08)",
     "explanation": "Start/finish log of every resolver: the first event of root field i+1 must come after the last event of root field i's whole subtree.",
@@ -16,7 +16,7 @@ scalar Tok
 type Leaf { n: Int audit: String! }
 type Mid { n: Int leaf: Leaf leaves: [Leaf] audit: String! bal: Int }
 type Query { a: Int }
-type Mutation { first: Mid second: Mid third(v: Int @ab): Int nnroot: Int! tok: Tok! batch: [Mid]! codes: [Int]! }
+type Mutation { first: Mid second: Mid third(v: Int @ab): Int nnroot: Int! tok: Tok! batch: [Mid]! codes: [Int]! picks: [Mid!] }
 """
 LOG = []
 GATES = {}
@@ -91,7 +91,7 @@ except Exception:        # `extend schema` with an operation type may not be sup
     pass
 LEAF = {"n": 3, "audit": "ok"}
 MID = {"n": 2, "leaf": LEAF, "leaves": [LEAF, {"n": 4, "audit": "x"}], "audit": "au", "bal": 10}
-DATA = {"first": MID, "second": MID, "nnroot": 1, "tok": "t0", "batch": [MID, dict(MID), dict(MID)], "codes": [1, 2, 3]}
+DATA = {"first": MID, "second": MID, "nnroot": 1, "tok": "t0", "batch": [MID, dict(MID), dict(MID)], "codes": [1, 2, 3], "picks": [dict(MID), dict(MID), dict(MID)]}
 DOCS = {
     "M1": ("mutation { first { audit bal n } second { n } third(v: 1) }", [("first", "audit"), ("first", "bal"), ("first", "n"), ("second", "n")], ["first", "second", "third"]),
     "M2": ("mutation { a: first { ...F } ...R b: third(v: 2) } fragment R on %(root)s { second { leaves { n } } } fragment F on Mid { n bal }",
@@ -102,10 +102,12 @@ DOCS = {
            ["x", "first", "y"]),
     # a non-null root LIST of nullable items: a failing item is absorbed as null in the list, the following root fields still run
     "M6": ("mutation { first { n } batch { audit n } codes third(v: 6) }", [("batch", 1, "audit"), ("batch", 0, "n"), ("first", "n")], ["first", "batch", "codes", "third"]),
+    # a nullable list of NON-NULL items: one failing item nulls the list while the other items' nested resolvers are still pending — the next root waits for them
+    "M7": ("mutation { first { n } picks { audit n } third(v: 7) }", [("picks", 1, "audit"), ("picks", 0, "audit"), ("picks", 2, "audit"), ("picks", 2, "n")], ["first", "picks", "third"]),
     "M5": ("mutation { first { n audit } tok third(v: 5) }", [("first", "n"), ("first", "audit")], ["first", "tok", "third"]),
 }
 ROOTS = ["Mutation", "Mutation", "Ops", "Changes"]
-ARGROOT = {"M1": ("third", 1), "M2": ("b", 2), "M3": ("third", 3), "M4": ("x", 1), "M5": ("third", 5), "M6": ("third", 6)}       # (response key, v) of the root field whose argument coercion is made to fail
+ARGROOT = {"M1": ("third", 1), "M2": ("b", 2), "M3": ("third", 3), "M4": ("x", 1), "M5": ("third", 5), "M6": ("third", 6), "M7": ("third", 7)}       # (response key, v) of the root field whose argument coercion is made to fail
 
 
 def doc_text(doc, eng):
